@@ -177,6 +177,20 @@ func H_C13_env() {
 	}
 	vassert(bimp(expHas, exact), "env-value")
 	vassert(bimp(bnot(expHas), bnot(prefixed)), "env-presence")
+	// determinism of the list: two newly added variables appear in the order of the adjustment
+	if len(ks) == 2 && !ks[0].marked && !ks[1].marked {
+		bothNew := ks[0].base != ks[1].base
+		for i := 0; i < npre; i++ {
+			bothNew = band(bothNew, band(pk[i] != ks[0].base, pk[i] != ks[1].base))
+		}
+		s0, s1 := ks[0].base+"="+ks[0].val, ks[1].base+"="+ks[1].val
+		seen0, inOrder := false, false
+		for _, e := range env {
+			inOrder = bor(inOrder, band(seen0, e == s1))
+			seen0 = bor(seen0, e == s0)
+		}
+		vassert(bimp(bothNew, inOrder), "env-new-variables-order")
+	}
 	// no variable appears twice: at most one entry starts with "p="
 	for i := range env {
 		for j := i + 1; j < len(env); j++ {
